@@ -221,7 +221,7 @@ impl Property for C18 {
         Some(crate::FuzzSpec { label: "c18-ws", max_len: 700, runs: 10000 })
     }
     fn run(&self, ctx: &mut Ctx) {
-        let cases = ctx.tier.pick(2_000, 60_000);
+        let cases = ctx.tier.pick(12_000, 60_000);
         ctx.run_streams("c18-ws", cases, 700, |ctx, bytes| {
             ctx.mark(&json!({"stream": hex(bytes)}));
             let mut c = Choices::new(bytes);
